@@ -804,6 +804,13 @@ func ruleR9(c *Ctx) *RuleResult {
 					if name == "" {
 						name = instrDesc(p, ref)
 					}
+					// a text search is identified by what it searches for as well: the marshalled key itself (the recorded
+					// finding F7) is one construct, a needle built any other way is another
+					if (name == "bytes.Index" || name == "bytes.Contains" || name == "bytes.LastIndex") && len(cc.Args) == 2 && cc.Args[0] == data {
+						if d := needleDesc(p, cc.Args[1]); d != "" {
+							name += "(needle:" + d + ")"
+						}
+					}
 					badF = append(badF, fmt.Sprintf("→%s|raw input handed to %s at %s", name, name, p.InstrPos(ref)))
 				default:
 					badF = append(badF, fmt.Sprintf("→%T|raw input used by %T at %s", ref, ref, p.InstrPos(ref)))
@@ -828,6 +835,35 @@ func ruleR9(c *Ctx) *RuleResult {
 		}
 	}
 	return r
+}
+
+// needleDesc: "" when v is exactly the first result of json.Marshal(·); otherwise how v is made (callee / builtin / kind).
+func needleDesc(p *Prog, v ssa.Value) string {
+	if ex, ok := v.(*ssa.Extract); ok && ex.Index == 0 {
+		if call, ok := ex.Tuple.(*ssa.Call); ok && stdCalleeName(p, call.Common()) == "encoding/json.Marshal" {
+			return ""
+		}
+	}
+	switch x := v.(type) {
+	case *ssa.Call:
+		if b, ok := x.Call.Value.(*ssa.Builtin); ok {
+			return b.Name()
+		}
+		if n := stdCalleeName(p, x.Common()); n != "" {
+			return n
+		}
+		if cal := StaticCallee(x.Common()); cal != nil {
+			return cal.Name()
+		}
+		return "call"
+	case *ssa.Phi:
+		return "phi"
+	case *ssa.Slice:
+		return "slice"
+	case *ssa.Convert:
+		return "convert"
+	}
+	return fmt.Sprintf("%T", v)
 }
 
 func isLoadOfField(v ssa.Value) bool {
